@@ -53,6 +53,9 @@ def run(ctx):
     cache = ctx.new_cache()
     prior_data = b"previous value"
     holder = ctx.call("sync@astd", {"op": "write", "cache": cache, "key": "holder-of-shared-content", "data": ctx.data(prior_data)})
+    # a second holder with content large enough to arrive in several chunks
+    prior_big = rng.randbytes(5000)
+    ctx.call("sync@astd", {"op": "write", "cache": cache, "key": "holder-of-big-shared-content", "data": ctx.data(prior_big)})
     for i in range(n):
         mode = modes[i % len(modes)]
         keyed = rng.random() < 0.75
@@ -69,14 +72,17 @@ def run(ctx):
         if shared:
             # the very bytes another key (and possibly this key's previous value) already stores
             data, ln, algo = prior_data, len(prior_data), "sha256"
+            if rng.random() < 0.5:
+                data, ln = prior_big, len(prior_big)
         shape, lens = gen.chunking(rng, ln)
-        sclass = rng.choice(["none", "exact", "exact", "minus1", "plus1", "zero", "double", "mib-1", "mib", "mib+1"])
+        sclass = rng.choice(["none", "exact", "exact", "minus1", "plus1", "zero", "double", "mib-1", "mib", "mib+1",
+                             "one", "half", "tenth"])
         dsize = {"none": None, "exact": ln, "minus1": ln - 1, "plus1": ln + 1, "zero": 0, "double": 2 * ln,
-                 "mib-1": MIB - 1, "mib": MIB, "mib+1": MIB + 1}[sclass]
+                 "mib-1": MIB - 1, "mib": MIB, "mib+1": MIB + 1, "one": 1, "half": ln // 2, "tenth": ln // 10}[sclass]
         if dsize is not None and dsize < 0:
             dsize, sclass = ln + 1, "plus1"
         ikind = rng.choice(INTEGRITY_KINDS)
-        if ikind == "existing-other-content" and (shared or data == prior_data):
+        if ikind == "existing-other-content" and (shared or data == prior_data or data == prior_big):
             ikind = "wrong-same-algo"
         dsri, iallowed = make_integrity(rng, ikind, algo, data)
         if ikind == "existing-other-content":
@@ -108,7 +114,8 @@ def run(ctx):
             wreq["key"] = key
         look = [{"op": "metadata", "cache": cache, "key": key}, {"op": "read", "cache": cache, "key": key}] if keyed else []
         if shared:
-            look = look + [{"op": "read", "cache": cache, "key": "holder-of-shared-content"}]
+            look = look + [{"op": "read", "cache": cache, "key": "holder-of-shared-content"},
+                           {"op": "read", "cache": cache, "key": "holder-of-big-shared-content"}]
         reqs = pre + look + [wreq] + look
         resps = ctx.batch(mode, reqs)
         np_, nl = len(pre), len(look)
@@ -165,8 +172,16 @@ def run(ctx):
 
 
 def strip(r):
-    """Response without timing fields."""
-    return {k: v for k, v in r.items() if k in ("ok", "err", "panic", "hang", "died")}
+    """Response without timing fields; returned data by value (large results come back as files with fresh names)."""
+    out = {k: v for k, v in r.items() if k in ("ok", "err", "panic", "hang", "died")}
+    if isinstance(out.get("ok"), dict) and isinstance(out["ok"].get("data"), dict):
+        import hashlib
+        try:
+            b = drv.data_bytes(out["ok"]["data"])
+            out["ok"] = dict(out["ok"], data=(len(b), hashlib.sha1(b).hexdigest()))
+        except Exception:
+            pass
+    return out
 
 
 def normalise_sri(s):
